@@ -13,7 +13,9 @@ def keep(l):
 def run(ctx):
     want = ("outbound:forged-progress", "outbound:close-before-ack", "outbound:pubrel-without-publish")
     from .c18 import mon_connack
-    mon = lambda tr, sc: SC.mon_sanity(tr) + [h for h in SC.mon_outbound(tr) if h[0] in want] + mon_connack(tr, sc) + SC.mon_deadline(tr)
+    from .c11 import mon_requests
+    mon = lambda tr, sc: SC.mon_sanity(tr) + [h for h in SC.mon_outbound(tr) if h[0] in want] + mon_connack(tr, sc) + SC.mon_deadline(tr) + \
+        [h for h in mon_requests(tr, sc) if h[0].startswith("own-response")]
     v, stats, hist, samples, nd = SC.run_property(ctx, MODULE, PROFILE, 300, 6000, [mon], keep, length=(8, 30))
     return SC.finish(ctx, v, stats, hist, samples, nd,
                      "valid prefixes followed by hostile bytes: reserved/client-only types, 5-byte remaining length, zero and foreign "
